@@ -706,6 +706,13 @@ func (g *generator) extractDefault(v cue.Value) (any, error) {
 	return def, nil
 }
 
+// isReference tells whether a value is written as a reference to another value.
+func isReference(v cue.Value) bool {
+	_, path := v.ReferencePath()
+
+	return len(path.Selectors()) != 0
+}
+
 func (g *generator) declareStringConstraints(v cue.Value) ([]ast.TypeConstraint, error) {
 	// if the string has a default value (`string & strings.MinRunes(2) | *"abc"`), strip it
 	// from `v` before trying to extract constraints.
@@ -722,7 +729,12 @@ func (g *generator) declareStringConstraints(v cue.Value) ([]ast.TypeConstraint,
 	typeAndConstraints := appendSplit(nil, cue.AndOp, v)
 
 	// nothing to do, unless the only expression is itself a constraint (`strings.MinRunes(2)`)
+	// or a reference to a definition, which stands for the constraints of that definition (`#Name | *"abc"`)
 	if len(typeAndConstraints) == 1 {
+		if isReference(typeAndConstraints[0]) {
+			return g.declareStringConstraints(cue.Dereference(typeAndConstraints[0]))
+		}
+
 		if op, _ := typeAndConstraints[0].Expr(); op != cue.CallOp {
 			return nil, nil
 		}
@@ -748,6 +760,17 @@ func (g *generator) declareStringConstraints(v cue.Value) ([]ast.TypeConstraint,
 
 	for _, andExpr := range typeAndConstraints {
 		op, args := andExpr.Expr()
+
+		// a reference to a definition (`#Name & strings.MaxRunes(5)`): its constraints apply too
+		if isReference(andExpr) {
+			inherited, err := g.declareStringConstraints(cue.Dereference(andExpr))
+			if err != nil {
+				return nil, err
+			}
+
+			constraints = append(constraints, inherited...)
+			continue
+		}
 
 		// TODO: support more OPs?
 		if op != cue.CallOp {
